@@ -115,6 +115,22 @@ def run(ctx):
                 ex = np.interp(np.minimum(r["x"], 2 - r["x"]), np.concatenate([[0.0], xr]), np.concatenate([[r["uf"]], ur]))
                 ferr.append(np.abs(r["field"] - ex).max() / (r["ui"] - r["uf"]))
             judge(f"{tname} {grid} r={ratio}", ferr, inp, 3.5, "pseudopressure field vs method-of-lines reference")
+            # the same ladder with the iterative solver reporting failure on every third step (as it does by itself on fine grids):
+            # the direct-solve fallback must advance the SAME problem
+            if grid == "quadratic" and not rev:
+                from checks.C04 import Probe
+                with Probe(fail_every=3, fail_info=-10):
+                    lad_f = ladder("single", ratio, nxs, tb, grid)
+                ev += len(lad_f)
+                if any("field" not in r for r in lad_f):
+                    bad("simulation fails on the refinement ladder when the iterative solver reports failure", inp, [r.get("error") for r in lad_f])
+                else:
+                    ferr_f = []
+                    for r in lad_f:
+                        ex = np.interp(np.minimum(r["x"], 2 - r["x"]), np.concatenate([[0.0], xr]), np.concatenate([[r["uf"]], ur]))
+                        ferr_f.append(np.abs(r["field"] - ex).max() / (r["ui"] - r["uf"]))
+                    judge(f"{tname} {grid} r={ratio} (fallback solver on every third step)", ferr_f, dict(**inp, solver="iterative solver made to report failure on every third step"),
+                          3.5, "pseudopressure field vs method-of-lines reference, direct-solve fallback exercised")
     ctx.cov.update(evaluations=ev, distinct_nontrivial=len(report), ladders=report[:40],
                    rule="refinement ladders (nx, nt) -> (2 nx, ~4 nt) at t = 0.5: ideal reservoir and a constant-diffusivity table against the closed-form "
                         "Fourier series (field at the nodes and flux recovery) for p_frac/p_initial from 0.0125 to 0.99875; pressure-dependent tables against an "
